@@ -29,6 +29,9 @@ class VirtualToReal:
     self._import_references(previous)
     self._gfa._unregister_line(previous)
     self._gfa._register_line(self)
+    # (the replaced line is not a line of the Gfa any more)
+    previous._refs = {}
+    previous._gfa = None
     return None
 
   def _import_references(self, previous):
